@@ -67,8 +67,34 @@ def codec_small_inputs_c01():
                            (16777264).to_bytes(4, "big"), b"\x01\x02\x03\x04", b"\x0a\x0b\x0c\x0d") + body
             if got != want:
                 bad_msg.append((k, got.hex()[:80], want.hex()[:80]))
+    # Message Length bookkeeping under append / pop / extend / refresh
+    bad_len, nl = [], 0
+    from bromelia.avps import UserNameAVP, OriginHostAVP, ProductNameAVP
+    for d1, d2 in itertools.product(("u", "user5", "abcdefgh"), ("h", "host.example", "abc")):
+        nl += 1
+        try:
+            h = B.DiameterHeader(application_id=16777264, command_code=268, flags=0xc0)
+            m = B.DiameterMessage(h, [UserNameAVP(d1)])
+            steps = [("initial", m.dump())]
+            m.append(OriginHostAVP(d2))
+            steps.append(("append", m.dump()))
+            m.extend([ProductNameAVP(d1 + d2)])
+            steps.append(("extend", m.dump()))
+            m.pop("origin_host_avp")
+            steps.append(("pop", m.dump()))
+            m.pop("product_name_avp")
+            steps.append(("pop", m.dump()))
+            for what, w in steps:
+                if int.from_bytes(w[1:4], "big") != len(w) or len(w) % 4:
+                    bad_len.append((d1, d2, what, int.from_bytes(w[1:4], "big"), len(w)))
+                    break
+            if steps[-1][1] != steps[0][1]:
+                bad_len.append((d1, d2, "append+extend+pop+pop does not restore the message"))
+        except BaseException as e:  # noqa
+            bad_len.append((d1, d2, "raised " + type(e).__name__))
     return [("avp-dump-is-the-reference-encoding", not bad_avp, {"checked": n, "failing": bad_avp[:5]}),
-            ("message-dump-is-header-then-avps", not bad_msg, {"checked": nm, "failing": bad_msg[:5]})]
+            ("message-dump-is-header-then-avps", not bad_msg, {"checked": nm, "failing": bad_msg[:5]}),
+            ("message-length-is-the-size-after-append-extend-pop", not bad_len, {"checked": nl, "failing": bad_len[:5]})]
 
 
 codec_small_inputs_c01.bounded = "480 generic AVPs (data length <= 13), messages of <= 3 AVPs; native run against the spec encoder"
@@ -111,7 +137,7 @@ codec_small_inputs_c02.bounded = "streams of 1..3 generic AVPs of unregistered c
 def malformed_small_inputs():
     """DiameterAVP.load / DiameterMessage.load on truncations, length-field corruptions and single-byte flips
     of small valid encodings: returns or raises one of the library's own error types (termination is covered by
-    the per-task wall-clock limit: a hang leaves this obligation undecided, the proof's variant reports it)"""
+    a 3-second watch per input)"""
     import bromelia.base as B
     from pyvc.spec import lib_error
     from contracts.findings_regions import c03_known_region
@@ -136,13 +162,26 @@ def malformed_small_inputs():
         cases += [("msg", s[:1] + v + s[4:]) for v in (b"\x00\x00\x00", b"\x00\x00\x13", b"\x00\x00\x14",
                                                         b"\x00\x00\x15", b"\xff\xff\xff")]
         cases += [("msg", s[:i] + bytes([s[i] ^ 0xff]) + s[i + 1:]) for i in range(0, len(s), 3)]
+    import threading
     for kind, s in cases:
         n += 1
-        try:
-            (B.DiameterAVP.load if kind == "avp" else B.DiameterMessage.load)(s)
-        except BaseException as e:  # noqa
-            if not lib_error(e) and not c03_known_region(e):
-                bad.append((kind, s.hex()[:100], type(e).__name__))
+        box = {}
+
+        def run(kind=kind, s=s):
+            try:
+                (B.DiameterAVP.load if kind == "avp" else B.DiameterMessage.load)(s)
+            except BaseException as e:  # noqa
+                box["exc"] = e
+            box["done"] = True
+        th = threading.Thread(target=run, daemon=True)
+        th.start()
+        th.join(3)
+        if not box.get("done"):
+            bad.append((kind, s.hex()[:100], "still decoding after 3 s"))
+            break                       # the stuck thread dies with this task's process
+        e = box.get("exc")
+        if e is not None and not lib_error(e) and not c03_known_region(e):
+            bad.append((kind, s.hex()[:100], type(e).__name__))
     return [("only-library-errors-on-corrupted-small-inputs", not bad, {"checked": n, "failing": bad[:6]})]
 
 
